@@ -2,7 +2,7 @@
 // OCFileGraph (segment loads), OCImmutableEdgeGraph (segment iteration, optional transpose file for
 // in-edges), OfflineGraph (seek+read per access) and BufferedGraph (loadGraph / loadPartialGraph).
 // OCFileGraph, OCImmutableEdgeGraph and BufferedGraph are documented as version-1 only and get
-// version-1 files; OfflineGraph gets both versions (and both padding conventions where they differ).
+// version-1 files; OfflineGraph gets both versions (version 2 in its one layout: no pad word).
 #include "c12_common.h"
 
 #include "galois/Galois.h"
@@ -249,34 +249,11 @@ std::string offlineRead(Case& c, const std::string& path, bool shuffled) {
 template <typename T>
 void offline_t(Case& c) {
   const bool shuffled = c.variant & 1;
-  struct In {
-    ref::V2Pad pad;
-    const char* name;
-    std::string path, wit;
-  };
-  std::vector<In> in;
-  if (c.version == 2 && c.odd && c.width) {
-    in.push_back({ref::V2Pad::None, "none", c.path("n"), ""});
-    in.push_back({ref::V2Pad::Odd8, "odd8", c.path("p"), ""});
-    c.v2BothConventions++;
-  } else
-    in.push_back({ref::V2Pad::None, "-", c.path("f"), ""});
-  bool any = false;
-  std::string acc;
-  for (auto& x : in) {
-    ref::write_gr(x.path, c.g, c.version, c.width, x.pad);
-    x.wit = offlineRead<T>(c, x.path, shuffled);
-    any |= x.wit.empty();
-    acc += x.wit.empty() ? (x.pad == ref::V2Pad::None ? "N" : "P") : "";
-  }
-  if (in.size() == 2)
-    c.sigExtra += "|acc:" + acc;
-  if (!any) {
-    J j;
-    for (auto& x : in)
-      j.raw((std::string("pad_") + x.name).c_str(), x.wit);
-    c.violation(c.key("content", c.v2class()), j.str());
-  }
+  std::string in      = c.path("f");
+  ref::write_gr(in, c.g, c.version, c.width, ref::V2Pad::None);
+  std::string w = offlineRead<T>(c, in, shuffled);
+  if (!w.empty())
+    c.violation(c.key("content", c.v2class()), J().kv("file_bytes", fileSize(in)).raw("diff", w).str());
 }
 
 // ------------------------------------------------------------------ BufferedGraph
